@@ -258,6 +258,17 @@ class ModelLock:
         self._w = world
         self._locked = False
         self._owner = None
+        self.idx = None
+        if world is not None:
+            self.idx = len(world.locks)
+            world.locks.append(self)
+        # world None: a lock created while the module under test is being executed (module- or class-level lock object, shared by
+        # every instance and every execution); Pool.start() attaches it to each new world and resets it
+
+    def attach(self, world):
+        self._w = world
+        self._locked = False
+        self._owner = None
         self.idx = len(world.locks)
         world.locks.append(self)
 
@@ -384,8 +395,13 @@ class Pool:
         pool = self
         model = types.ModuleType("threading")
 
+        pool.static_locks = []
+
         def Lock():
-            return ModelLock(pool.world)
+            lk = ModelLock(pool.world)
+            if pool.world is None:
+                pool.static_locks.append(lk)
+            return lk
 
         model.Lock = Lock
         model.RLock = Lock  # not used by the code under test; a re-entrant use would show up as a deadlock
@@ -479,6 +495,8 @@ class Pool:
         w.error = [None] * n
         self.world = w
         self.bodies = bodies
+        for lk in self.static_locks:  # module-/class-level locks of the code under test: same objects in every execution, reset here
+            lk.attach(w)
         w.shared = make_shared(self.ns)
         for t in range(n):
             w.cur = t
@@ -550,6 +568,10 @@ def lock_names(w):
                 walk(v, path + k + ".", depth + 1)
 
     walk(w.shared, "", 0)
+    for cls in w.pool.classes:  # class-level lock objects
+        for k, v in vars(cls).items():
+            if isinstance(v, ModelLock):
+                names.setdefault(v.idx, "%s.%s (class attribute)" % (cls.__name__, k))
     return names
 
 
